@@ -283,7 +283,7 @@ def coq_hygiene():
     bad = []
     for root, _, files in os.walk(COQ):
         for fn in files:
-            if not fn.endswith(".v"):
+            if not fn.endswith(".v") or fn.startswith("Scratch"):   # scratch files are not part of the build
                 continue
             p = os.path.join(root, fn)
             txt = open(p, errors="replace").read()
@@ -426,7 +426,8 @@ def standard_check(ctx, plug):
             ctx.known_hits[fid] = ctx.known_hits.get(fid, 0) + 1
         else:
             new_l1.append(i)
-    l2_only = [i for i in l2 if i not in l1]
+    l1s = set(l1)
+    l2_only = [i for i in l2 if i not in l1s]
     if l2:
         ctx.broken.append("correspondence:%s impl!=model on %d/%d cases (first: case %d)" %
                           (ctx.pid, len(l2), len(cases), l2[0]))
